@@ -267,3 +267,27 @@ def shrink(case):
         yield ' '.join(w[:3] + [','.join(rest)])
     if int(w[2]) > 1:
         yield ' '.join([w[0], w[1], str(int(w[2]) - 1), w[3]])
+
+
+CLAIM = {
+    'text': 'Coq theorems (Properties_C15.v) over an executable model of PolicyBase/Counted/MaxSize on a modelled file '
+            'system, for every limit >= 1, every number of generations >= 1 and every history of messages and '
+            'restarts (induction over events, invariant: generation k holds exactly the messages written between '
+            'two consecutive starts of a new generation): no operation throws; the generations read oldest to newest '
+            'are the encoding of a suffix of the messages written, nothing is lost before the oldest slot is in use, '
+            'the message just written is retained; every file consists of whole messages; no generation exceeds its '
+            'limit (entries, resp. bytes including line terminators, for messages that fit an empty generation); a '
+            'message starts a new generation only when it would exceed the limit; a restart of a size-limited log '
+            'only when the file is full. The model is tied to the code by running the real policies through '
+            'files::Handler on real files, exhaustively for small scopes, dumping all files after every event.',
+    'note': 'partial: for count-limited logs a restart with a non-empty current file starts a new generation although '
+            'entries fit (known finding restart-starts-new-generation, C15_counted_restart_refuted; the retention '
+            'bound C15_roll_retains_partial is therefore proved for histories without restarts). Three defects of the '
+            'pinned tree repaired by fixes/C15-1..3. Trusted: Coq kernel, extraction, the hand-written model incl. the '
+            'semantics of the open modes and of rename (validated by correspondence on every run), no I/O errors, '
+            'orderly shutdown (no crash in the middle of a write).',
+    'technique': 'Coq proof by induction over event histories with a ghost segmentation of the history; closed form of '
+                 'the rename loop; model/implementation correspondence against a real directory, exhaustive histories '
+                 'of <= 4 (quick) / 5 (thorough) events for 36 configurations',
+    'design_ref': 'DESIGN.md section 5, C15',
+}
